@@ -101,7 +101,7 @@ def register(reg):
         qualname="UDPProxyProtocol.datagram_received", cls="UDPProxyProtocol", prop=PID, spec_modules=["inet"],
         params={"data": "Bytes", "source_addr": "Tuple[Str,Int]"}, param_names=["data", "source_addr"],
         externals={
-            "self.far_to_near_map.get": {"returns": "Opt[Tuple[Str,Int]]", "record_as": "lookup", "doc": "route lookup"},
+            "self.far_to_near_map.get": {"returns": "Opt[Tuple[Str,Int]]", "record_as": "lookup", "record_result": True, "doc": "route lookup"},
             "self.far_to_near_map.setdefault": {"record_as": "store:self.far_to_near_map", "doc": "route learning (first wins)"},
             "UDPPacket": {"returns": "Obj:UDPPacket", "post": pkt_post, "doc": "constructor stores its keyword arguments"},
             "self.handle_proxied_packet": {"record_as": "handle", "may_raise": "AnyException", "doc": "virtual: the LLUDP handler"},
@@ -109,6 +109,11 @@ def register(reg):
         may_raise={"AnyException": "", "struct.error": "len(data) < 10 or (data[3] == 3 and len(data) < 7 + data[4])", "IndexError": "len(data) < 5"},
         ensures=[
             "ncalls('handle') <= 1 and ncalls('store:self.far_to_near_map') <= 1",
+            # a datagram from an address with an established route (a simulator) always goes to that route's near end, inbound and
+            # byte for byte - whatever its first bytes look like, and also when the simulator shares the client's IP
+            "called_with('lookup', lambda result: implies(not is_none(result), ncalls('store:self.far_to_near_map') == 0 and "
+            "(ncalls('handle') == 0 or called_with('handle', lambda arg0: arg0.direction == Direction.IN and arg0.src_addr == source_addr "
+            "and arg0.dst_addr == val(result) and arg0.data == data))))",
             # a route is learnt only together with a dispatch of that very datagram, from the client IP
             "implies(ncalls('store:self.far_to_near_map') == 1, ncalls('handle') == 1 and source_addr[0] == self.socks_client_addr[0] "
             "and called_with('store:self.far_to_near_map', lambda key, value: value == source_addr))",
